@@ -178,6 +178,7 @@ type GuardOpt struct {
 	Context     []string // conditions that may (must) additionally hold at the branch: "fails when ctx ∧ cond"
 	Before      string   // callee name(s) ('|'-separated) every call of which must be dominated by the guard
 	Conditional bool     // the guard need not lie on every success path (it sits inside a conditional region)
+	EveryIter   bool     // the guard sits in a loop and is evaluated on every iteration (dominates every back edge of its loop); implies Conditional
 	Role        string
 }
 
@@ -220,7 +221,18 @@ func (c *Ctx) FailsWhen(fnSpec, cond, desc string, opt GuardOpt) {
 		c.add("G", fnSpec, role, desc, report.Violated, "no failing branch on this condition; failing branches seen: "+short(strings.Join(seen, " ; ")), c.fnPos(f))
 		return
 	}
-	if !opt.Conditional {
+	if opt.EveryIter {
+		ok := false
+		for _, h := range hits {
+			if everyIteration(h.If.Block()) {
+				ok = true
+			}
+		}
+		if !ok {
+			c.add("G", fnSpec, role, desc, report.Violated, "the check is not evaluated on every iteration of a loop", c.posOf(hits[0].If))
+			return
+		}
+	} else if !opt.Conditional {
 		ok := false
 		for _, h := range hits {
 			if f.MustPassOnSuccess(h.If.Block()) {
@@ -252,6 +264,55 @@ func (c *Ctx) FailsWhen(fnSpec, cond, desc string, opt GuardOpt) {
 		}
 	}
 	c.add("G", fnSpec, role, desc, report.OK, hits[0].Cond.String(), c.ifPos(hits[0].If, f))
+}
+
+// everyIteration: b lies in a natural loop and dominates every back edge of the innermost such loop.
+func everyIteration(b *ssa.BasicBlock) bool {
+	var best map[*ssa.BasicBlock]bool
+	var bestLatch []*ssa.BasicBlock
+	for _, h := range b.Parent().Blocks {
+		body, latch := NaturalLoop(h)
+		if body == nil || !body[b] {
+			continue
+		}
+		if best == nil || len(body) < len(best) {
+			best, bestLatch = body, latch
+		}
+	}
+	if best == nil {
+		return false
+	}
+	for _, l := range bestLatch {
+		if !b.Dominates(l) {
+			return false
+		}
+	}
+	return true
+}
+
+// NaturalLoop returns the body and latches of the natural loop headed by h (nil if h heads no loop).
+func NaturalLoop(h *ssa.BasicBlock) (map[*ssa.BasicBlock]bool, []*ssa.BasicBlock) {
+	var latch []*ssa.BasicBlock
+	for _, p := range h.Preds {
+		if h.Dominates(p) {
+			latch = append(latch, p)
+		}
+	}
+	if len(latch) == 0 {
+		return nil, nil
+	}
+	body := map[*ssa.BasicBlock]bool{h: true}
+	work := append([]*ssa.BasicBlock{}, latch...)
+	for len(work) > 0 {
+		b := work[len(work)-1]
+		work = work[:len(work)-1]
+		if body[b] {
+			continue
+		}
+		body[b] = true
+		work = append(work, b.Preds...)
+	}
+	return body, latch
 }
 
 func (c *Ctx) ifPos(iff *ssa.If, f *ir.Func) string {
